@@ -26,8 +26,8 @@ META = {
     ),
     "assumptions": ["the instant of visibility is the return of the DurableContext call into the generated program (the harness owns the schedule, so reading the backend table there is race-free)"],
     "budget": {
-        "quick": {"shards": 4, "random_cases": 90, "fault_cases": 120, "min_nontrivial": 40},
-        "thorough": {"shards": 16, "random_cases": 2500, "fault_cases": 3000, "min_nontrivial": 1200},
+        "quick": {"shards": 4, "random_cases": 90, "fault_cases": 120, "sweep_limit": 700, "min_nontrivial": 40},
+        "thorough": {"shards": 16, "random_cases": 2500, "fault_cases": 3000, "sweep_limit": 5000, "min_nontrivial": 1200},
     },
 }
 
@@ -80,9 +80,13 @@ def classes(run, case):
 def fault_focused_cases(draw):
     """A failing backend call while a synchronous caller is blocked, with the batcher preemptible between any two
     source lines of the release protocol (threading.py / state.py)."""
-    body = draw(st.lists(st.one_of(G.steps(allow_fail=False), G.steps(allow_fail=False), G.waits(3),
-                                   st.builds(lambda b: {"op": "child", "body": b}, st.lists(G.steps(allow_fail=False), min_size=1, max_size=2))),
-                         min_size=1, max_size=3))
+    if draw(st.integers(0, 3)) == 0:
+        # two branches whose results do not fit one batch: the second record waits in the batcher's overflow path
+        body = [{"op": "parallel", "branches": [[draw(_big)], [draw(_big)]], "cfg": {"completion": {"min": None, "tol": 2, "pct": None}}}]
+    else:
+        body = draw(st.lists(st.one_of(G.steps(allow_fail=False), G.steps(allow_fail=False), G.waits(3),
+                                       st.builds(lambda b: {"op": "child", "body": b}, st.lists(G.steps(allow_fail=False), min_size=1, max_size=2))),
+                             min_size=1, max_size=3))
     return {
         "prog": {"body": body},
         "backend": {"response": "delta"},
@@ -101,4 +105,33 @@ def _fault_stage(ctx):
     WC.run_generated(ctx, fault_focused_cases(), PROPS, n_cases=ctx.budget.get("fault_cases", 100), nontrivial=nontrivial, classes=classes, seed_offset=3)
 
 
-install(globals(), props=("C03",), cases=cases, nontrivial=nontrivial, classes=classes, stages=(_fault_stage,))
+def _S(v, **k):
+    return {"op": "step", "beh": {"kind": "ret", "v": v}, "sem": k.pop("sem", "least"), "retry": {"kind": "none"}, **k}
+
+
+SWEEPS = [
+    # (label, program body, fault or None)
+    ("step; fault on call 0", [_S(1)], {"inv": 0, "api": 0, "class": "server5xx", "when": "before"}),
+    ("step(at-most-once), step; fault on call 1", [_S(1, sem="most"), _S(2)], {"inv": 0, "api": 1, "class": "client4xx", "when": "before"}),
+    ("child{step}; wait; fault on call 0", [{"op": "child", "body": [_S(1)]}, {"op": "wait", "secs": 1}], {"inv": 0, "api": 0, "class": "throttle", "when": "after"}),
+    ("callback; wait; invoke (no fault)", [{"op": "callback", "between": [_S(3)]}, {"op": "wait", "secs": 1}, {"op": "invoke", "fn": "f", "payload": 1}], None),
+    ("parallel{step,step}; fault on call 1", [{"op": "parallel", "branches": [[_S(1)], [_S(2)]], "cfg": {"completion": {"min": None, "tol": 2, "pct": None}}}], {"inv": 0, "api": 1, "class": "server5xx", "when": "before"}),
+    ("retrying step (no fault)", [{"op": "step", "beh": {"kind": "fail_by_attempt", "k": 1, "err": "UserError", "v": 1}, "sem": "least", "retry": {"kind": "table", "max": 3, "delays": [1], "nonretry": []}}], None),
+]
+
+
+def _sweep_stage(ctx):
+    """One long preemption at every executed source line of state.py / threading.py (batcher hand-over and release
+    protocol), with and without a failing backend call."""
+    from .. import wfcheck as WC
+
+    for i, (label, body, fault) in enumerate(SWEEPS):
+        if ctx.nshards > 1 and i % ctx.nshards != ctx.shard % ctx.nshards:
+            continue
+        base = {"prog": {"body": body}, "backend": {"response": "delta", "page_size": 1 if i % 2 else None}, "plan": {"crashes": [], "faults": [fault] if fault else []},
+                "line": ["state", "threading"], "max_raises": 1}
+        WC.line_preempt_sweep(ctx, base, PROPS, nontrivial=nontrivial, classes=lambda r, c: ["one-long-preemption-at-a-line"] + classes(r, c),
+                              limit=ctx.budget.get("sweep_limit", 700), label="one long preemption per line of state/threading: " + label)
+
+
+install(globals(), props=("C03",), cases=cases, nontrivial=nontrivial, classes=classes, stages=(_fault_stage, _sweep_stage))
